@@ -3,7 +3,7 @@ import json
 from vlib import common
 
 THEOREMS = ["C12_vector_wrap", "C12_chroma_rounding", "C12_halfsample_split", "C12_candidates", "C12_mvd_code_table"]
-BRIDGES = ["BridgeTables", "BridgeKMv"]
+BRIDGES = ["BridgeTables", "BridgeKMv", "BridgePMvPred"]
 
 
 def median3(a, b, c):
